@@ -52,6 +52,9 @@ type Case struct {
 	// Wedge: the first Tflush written stops at respond.enter until the request that
 	// re-uses the old tag has been processed (it is processed between two Rflushes)
 	Wedge bool `json:"wedge,omitempty"`
+	// stage race (race_test.go): many targets that complete on their own, each
+	// chased by Tflushes timed to arrive around the completion; no holds
+	Race *RaceSpec `json:"race,omitempty"`
 }
 
 const deadline = 30 * time.Second
@@ -126,6 +129,9 @@ type frame struct {
 }
 
 func run(c *Case) error {
+	if c.Stage == "race" {
+		return runRace(c)
+	}
 	sv := script.NewServer(script.Config{Msize: 8192, Dotu: c.Dotu, Maxpend: c.Maxpend, Flush: c.FlushMode, Auth: true, ProcOps: c.ProcOps})
 	S := sv.S
 	holds := c.Holds
@@ -854,12 +860,24 @@ func execute(test string, c *Case) error {
 		hx.Label("implementation provides SrvReqProcessOps")
 	}
 	switch c.Stage {
-	case "same-chunk", "queued", "held", "multi", "flush-of-flush", "in-process", "in-respond", "rebind":
+	case "same-chunk", "queued", "held", "multi", "flush-of-flush", "in-process", "in-respond", "rebind", "race":
 		b, _ := json.Marshal(c)
 		hx.NonTrivial(b)
 	}
 	hx.Sample(test, c)
 	err := run(c)
+	if n, ok := err.(notAtRest); ok {
+		err = hangErr(string(n))
+	}
+	if h, ok := err.(hangErr); ok && c.Stage == "race" {
+		// the verdict on a missing Rflush is the fence's with the server at rest;
+		// a deadline proves something only if a goroutine is stuck inside go9p
+		if blocked := hx.BlockedInGo9p(); blocked != "" {
+			return fmt.Errorf("%s; goroutines blocked inside go9p:\n%s", string(h), blocked)
+		}
+		hx.Inconclusive(string(h))
+		return nil
+	}
 	if h, ok := err.(hangErr); ok {
 		if blocked := hx.BlockedInGo9p(); blocked != "" {
 			return fmt.Errorf("%s; goroutines blocked inside go9p:\n%s", string(h), blocked)
@@ -955,6 +973,58 @@ func TestEnumTwoFlushers(t *testing.T) {
 	if hx.Thorough() {
 		hx.Exhaustive("two flushers: 3 target types x 9 target points x 3 first-flusher points x 5 second-flusher points")
 	}
+}
+
+// the points of a synchronously answered target and of a Tflush in the order they
+// are passed
+var tseq = []string{"process.enter", "process.checked", "respond.enter", "respond.posted", "respond.queued", "send.dequeued", "send.written", "respond.unlinked", "process.done"}
+var fseq = []string{"process.enter", "process.checked", "flush.enter", "flush.linked", "flush.decided", "respond.enter", "respond.queued"}
+
+// TestEnumSandwich: one party makes exactly one step (from one of its points to
+// the next) while the other sits at one of its points: the target goes from
+// tseq[i] to tseq[i+1] while the Tflush waits at each flusher point, and the
+// Tflush goes from fseq[j] to fseq[j+1] while the target waits at each target
+// point (two ordering constraints per case; what one party decided before the
+// point it waits at is acted upon after the other's step).
+func TestEnumSandwich(t *testing.T) {
+	targets := []string{"walk", "clunk"}
+	if hx.Thorough() {
+		targets = []string{"walk", "clunk", "attach", "open", "create", "remove", "read", "auth"}
+	}
+	idx := 0
+	for _, tk := range targets {
+		tm, _, _ := build(tk, 100)
+		tm.Tag = 7
+		tkey := script.Key(ref9p.Canon(tm, true))
+		fkey := "Tflush/7/20"
+		var cases [][]sched.Hold
+		for i := 0; i+1 < len(tseq); i++ {
+			for _, fp := range fseq {
+				cases = append(cases, []sched.Hold{{Who: tkey, At: tseq[i], UntilWho: fkey, UntilPoint: fp}, {Who: fkey, At: fp, UntilWho: tkey, UntilPoint: tseq[i+1]}})
+			}
+		}
+		for j := 0; j+1 < len(fseq); j++ {
+			for _, tp := range tseq {
+				cases = append(cases, []sched.Hold{{Who: fkey, At: fseq[j], UntilWho: tkey, UntilPoint: tp}, {Who: tkey, At: tp, UntilWho: fkey, UntilPoint: fseq[j+1]}})
+			}
+		}
+		for _, hs := range cases {
+			idx++
+			if hx.NShards > 1 && idx%hx.NShards != hx.Shard {
+				continue
+			}
+			c := &Case{Dotu: true, FlushMode: []int{script.FlushAbsent, script.FlushCancel, script.FlushIgnore}[(idx/hx.NShards)%3], Maxpend: []int{0, 4}[idx%2],
+				Warm: []string{tk, "read"}, Target: tk, Stage: "same-chunk", NFlush: 1, Holds: hs}
+			if tk == "auth" {
+				c.Warm = []string{"read", "walk"}
+			}
+			if err := execute("sandwich", c); err != nil {
+				hx.Violation("sandwich", c, err.Error())
+				t.Fatalf("%+v: %v", hs, err)
+			}
+		}
+	}
+	hx.Exhaustive(fmt.Sprintf("one step of one party while the other sits at a point: %d target types x (8 target steps x 7 flusher points + 6 flusher steps x 9 target points)", len(targets)))
 }
 
 // wpoints: where the chosen Tflush has got to when the harness lets the parked
